@@ -133,10 +133,27 @@ def run_scenario(case, sched=None, monitor_records=None):
         except (H.SimHang, H.SimStepLimit) as e:
             out.update(phase="execute", exc=e)
         except Exception as e:  # noqa: BLE001
-            out.update(phase="execute" if st.entered else "build", exc=e)
+            # a rejection is an error raised by the calling code itself (validation), not one that travelled out of
+            # the executor; it may come late - after an executor has already run for an earlier pair - and is then
+            # still a rejection, judged by "nothing may have been written"
+            out.update(phase="execute" if (st.entered and _raised_in_execution(e)) else "build", exc=e,
+                       executor_entered_before_rejection=bool(st.entered))
         out["sources"] = sources
         out["shared_ancestry"] = shared_ancestry(sources)
     return rr, infos, out
+
+
+def _raised_in_execution(e):
+    import traceback
+
+    seen = set()
+    while e is not None and id(e) not in seen:
+        seen.add(id(e))
+        for fr in traceback.extract_tb(e.__traceback__):
+            if "/cubed/runtime/" in fr.filename or "/verif/sim/" in fr.filename:
+                return True
+        e = e.__cause__ or e.__context__
+    return False
 
 
 def shared_ancestry(sources):
@@ -202,6 +219,8 @@ def execute(case, sched=None):
             violations.append(dict(cls="hang", msg=str(e)))
         elif out["phase"] == "build":
             counters["rejected"] = 1
+            if out.get("executor_entered_before_rejection"):
+                counters["rejected_after_an_executor_ran"] = 1
             if not isinstance(e, ValueError):
                 counters["rejected_with_" + type(e).__name__] = 1
             # nothing may have been written before the rejection
